@@ -18,6 +18,9 @@
 //!                                                      first line: the archive is built, serialized and obtained through
 //!                                                      `from_bytes` / `BinArchive::from_bytes` + `from_archive`
 //!   c07.* set <k> <m> | del <k> | has <k> | get <k> | title <t> | setget <k>
+//!   c07.* sets <count> <nkeys> <delevery>              `count` set_message calls over `nkeys` rotating keys (a delete after
+//!                                                      every `delevery`-th, 0 = none); r=clean:<indices of calls after which
+//!                                                      is_dirty() was false | ->
 //! Strings are hex of UTF-8 (`-` = empty), lists are comma separated (`~` = empty list).
 //!
 //! Implementation lines
@@ -349,6 +352,29 @@ fn run_c07(st: &mut super::State, f: &[&str]) -> String {
                     }
                     None => "none".to_string(),
                 }
+            }
+            "sets" => {
+                // a long run of set_message calls (keys k<i mod nkeys>, messages m<i mod 7>), optionally a
+                // delete_message after every `delevery`-th set; is_dirty() is observed after EVERY call and the
+                // indices of the calls after which it was false are reported
+                let count: usize = f[2].parse().unwrap();
+                let nkeys: usize = f[3].parse().unwrap();
+                let delevery: usize = f[4].parse().unwrap();
+                let mut clean: Vec<String> = Vec::new();
+                for i in 0..count {
+                    t.set_message(&format!("k{}", i % nkeys), &format!("m{}", i % 7));
+                    if !t.is_dirty() {
+                        clean.push(format!("{}", i));
+                    }
+                    if delevery > 0 && i % delevery == delevery - 1 {
+                        t.delete_message(&format!("k{}", (i + 1) % nkeys));
+                        if !t.is_dirty() {
+                            clean.push(format!("{}d", i));
+                        }
+                    }
+                }
+                clean.truncate(20);
+                format!("clean:{}", if clean.is_empty() { "-".to_string() } else { clean.join("+") })
             }
             _ => return "bad-case".to_string(),
         };
@@ -981,7 +1007,7 @@ fn gen_c07(rng: &mut Rng, tier: &str, lines: &mut Vec<String>) {
         }
         ops.push(format!("del {}", hexs(k)));
     }
-    let depth = if thorough { 5 } else { 4 };
+    let depth = 4; // all 5-call histories (759 375) are sampled below: the thorough outputs stay under ~50 MB
     let total = ops.len().pow(depth as u32);
     for h in 0..total {
         let id = format!("c07.{:07}", n);
@@ -994,8 +1020,8 @@ fn gen_c07(rng: &mut Rng, tier: &str, lines: &mut Vec<String>) {
         }
     }
     // quick: a random sample of the depth-5 histories on top of all depth-4 ones
-    if !thorough {
-        for _ in 0..3000 {
+    {
+        for _ in 0..(if thorough { 30000 } else { 3000 }) {
             let id = format!("c07.{:07}", n);
             n += 1;
             lines.push(format!("{} new {} {}", id, rng.pick(&["U", "S"]), rng.pick(&["L", "B"])));
@@ -1075,6 +1101,55 @@ fn gen_c07(rng: &mut Rng, tier: &str, lines: &mut Vec<String>) {
             lines.push(format!("{} setget {}", id, hexs("k")));
             lines.push(format!("{} set {} {}", id, hexs("\u{30DE}\u{E9}"), hexs(m)));
             lines.push(format!("{} get {}", id, hexs("\u{30DE}\u{E9}")));
+        }
+    }
+    // --- long histories: the dirty flag after EVERY one of 255 / 256 / 257 / 511 / 512 / 513 set_message calls
+    // (thorough: also 65 535 / 65 536 / 65 537), on one key, a few rotating keys, all-distinct keys, with and without
+    // interleaved deletes, starting from every constructor
+    {
+        let counts: Vec<usize> = vec![255, 256, 257, 511, 512, 513];
+        let mut v = 0usize;
+        for &count in &counts {
+            // (nkeys, delete after every k-th set)
+            let mut shapes: Vec<(usize, usize)> = vec![(1, 0), (3, 0), (3, 5), (1, 256)];
+            if count <= 257 || (thorough && count <= 600) {
+                shapes.push((count, 0)); // all keys distinct
+                shapes.push((count, 7));
+            } else {
+                shapes.push((64, 9));
+            }
+            for (nkeys, delevery) in shapes {
+                let id = format!("c07.{:07}", n);
+                n += 1;
+                let (f, e) = [("U", "L"), ("S", "B"), ("U", "B"), ("S", "L")][v % 4];
+                match v % 3 {
+                    0 => lines.push(format!("{} new {} {}", id, f, e)),
+                    1 => lines.push(format!("{} frombytes {} {} {} {}:{}", id, f, e, hexs("T"), hexs("k0"), hexs("x"))),
+                    _ => lines.push(format!("{} fromarchive {} {} {} {}:{},{}:{}", id, f, e, hexs("T"), hexs("q"), hexs("x"), hexs("k1"), hexs("y"))),
+                }
+                v += 1;
+                lines.push(format!("{} sets {} {} {}", id, count, nkeys, delevery));
+                // the state keeps being observed afterwards: one more set makes 256 -> 257 etc.
+                lines.push(format!("{} has {}", id, hexs("k0")));
+                lines.push(format!("{} sets 1 1 0", id));
+                lines.push(format!("{} del {}", id, hexs("k0")));
+            }
+        }
+        if thorough {
+            // one u16-sized run: 65 536 sets of a single one-character key (compact state), then one more
+            let id = format!("c07.{:07}", n);
+            n += 1;
+            lines.push(format!("{} new U L", id));
+            lines.push(format!("{} sets 65535 1 0", id));
+            lines.push(format!("{} sets 1 1 0", id));
+            lines.push(format!("{} sets 1 1 0", id));
+        }
+        // the same through ordinary one-call lines (full state and oracle after every call): 257 sets of one key
+        let id = format!("c07.{:07}", n);
+        n += 1;
+        lines.push(format!("{} new U L", id));
+        for i in 0..257 {
+            lines.push(format!("{} set {} {}", id, hexs("k"), hexs(&format!("m{}", i % 5))));
         }
     }
     // --- random long histories over a 5-key pool, messages over {'\\','n','\n','x'}
